@@ -89,9 +89,22 @@ def run(ctx):
     if near is None:
         raise AnalysisError('Serializer._near_mod_n vanished')
 
+    # class-level constants of the serializer (tables a handler may consult through self.<NAME>)
+    class_consts = {}
+    class_const_nodes = {}
+    for st in ser.node.body:
+        if isinstance(st, (ast.Assign, ast.AnnAssign)) and st.value is not None:
+            for t in (st.targets if isinstance(st, ast.Assign) else [st.target]):
+                if isinstance(t, ast.Name):
+                    try:
+                        class_consts[t.id] = fdx.NumInterp({}).ev(st.value)
+                        class_const_nodes[t.id] = st.value
+                    except (fdx.Unsupported, fdx.Raised):
+                        pass
+
     def interp_handler(hname, gate_obj, targets):
         fn = ser.methods[hname]
-        self_obj = {'atol': 1e-8}
+        self_obj = {'atol': 1e-8, **class_consts}
 
         def call_hook(call, it):
             f = call.func
@@ -124,6 +137,16 @@ def run(ctx):
                         consts.add(float(fold.fold(c.args[1])))
                     except (fold.NotLiteral, TypeError):
                         pass
+            for a in ast.walk(fn):  # exponents listed in a class-level table the handler consults
+                if isinstance(a, ast.Attribute) and isinstance(a.value, ast.Name) and a.value.id == 'self' and a.attr in class_const_nodes:
+                    for c in ast.walk(class_const_nodes[a.attr]):
+                        if isinstance(c, (ast.Constant, ast.UnaryOp)):
+                            try:
+                                v = fold.fold(c)
+                            except (fold.NotLiteral, TypeError):
+                                continue
+                            if isinstance(v, (int, float)) and not isinstance(v, bool):
+                                consts.add(float(v))
             probes = sorted(set(PROBES) | consts | {c + 2 for c in consts} | {-c for c in consts})
             bad = None
             emitted = 0
